@@ -8,6 +8,7 @@ package transformer_test
 //                            lies inside the input
 
 import (
+	"sort"
 	"fmt"
 	"regexp"
 	"strings"
@@ -173,13 +174,21 @@ func renderModel(m *openfgav1.AuthorizationModel, l layout) string {
 			w.code(2, "define "+n+colon+renderRewrite(td.GetRelations()[n], td.GetMetadata().GetRelations()[n].GetDirectlyRelatedUserTypes(), l, true, strings.Repeat(ind, 0)))
 		}
 	}
-	for _, c := range m.GetConditions() {
+	var condNames []string
+	for cn := range m.GetConditions() {
+		condNames = append(condNames, cn)
+	}
+	sort.Strings(condNames)
+	for _, cn := range condNames {
+		c := m.GetConditions()[cn]
 		var ps []string
-		for _, pn := range []string{"l", "p", "q"} {
-			pt, ok := c.GetParameters()[pn]
-			if !ok {
-				continue
-			}
+		var paramNames []string
+		for pn := range c.GetParameters() {
+			paramNames = append(paramNames, pn)
+		}
+		sort.Strings(paramNames)
+		for _, pn := range paramNames {
+			pt := c.GetParameters()[pn]
 			ts := strings.ToLower(strings.TrimPrefix(pt.GetTypeName().String(), "TYPE_NAME_"))
 			if len(pt.GetGenericTypes()) > 0 {
 				ts += "<" + strings.ToLower(strings.TrimPrefix(pt.GetGenericTypes()[0].GetTypeName().String(), "TYPE_NAME_")) + ">"
